@@ -52,6 +52,7 @@ type lbOb struct {
 	rule, construct, where string
 	total, failed          int
 	details                map[string]bool
+	note                   string
 }
 
 type lbEngine struct {
@@ -1517,6 +1518,10 @@ func (e *lbEngine) refine(in *lbInst, st *lstate, cond ssa.Value, pol bool) *lst
 				return st.ge(k, linConst(0)).ge(e.lenLin(in, rg.X).add(linConst(-1)), k)
 			}
 		}
+		if _, ok := x.Tuple.(*ssa.Call); ok {
+			// a boolean component of a call's results: what the callee established where it returns it true (false)
+			return e.activate(st, e.atom(cond), pol)
+		}
 		return st
 	case *ssa.Call, *ssa.Phi:
 		return e.activate(st, e.atom(cond), pol)
@@ -2685,10 +2690,26 @@ func (e *lbEngine) inline(in *lbInst, st *lstate, call *ssa.Call, callee *ssa.Fu
 		return nil
 	}
 	res := callee.Signature.Results()
-	var all, whenT, whenF []*lstate
+	var all []*lstate
 	var allZ [][]lin
 	var resAtoms []atomID
-	boolResult := res.Len() == 1 && isBoolType(res.At(0).Type())
+	// boolean results: what holds at the returns where the component is true (false) becomes a fact guarded by the value
+	// the caller tests — the call itself, or the Extract of a tuple component (`skipped, hasError := l.skipComment(..)`)
+	type boolComp struct {
+		i            int
+		g            atomID
+		whenT, whenF []*lstate
+	}
+	var boolComps []*boolComp
+	if res.Len() == 1 && isBoolType(res.At(0).Type()) {
+		boolComps = append(boolComps, &boolComp{i: 0, g: e.atom(call)})
+	} else if res.Len() > 1 && call.Referrers() != nil {
+		for _, u := range *call.Referrers() {
+			if ex, ok := u.(*ssa.Extract); ok && isBoolType(ex.Type()) {
+				boolComps = append(boolComps, &boolComp{i: ex.Index, g: e.atom(ex)})
+			}
+		}
+	}
 	for _, r := range rets {
 		s := r.st
 		if s == nil {
@@ -2733,12 +2754,15 @@ func (e *lbEngine) inline(in *lbInst, st *lstate, call *ssa.Call, callee *ssa.Fu
 		if s == nil {
 			continue
 		}
-		if boolResult {
-			if t := e.refine(r.in, s, r.vals[0], true); t != nil {
-				whenT = append(whenT, e.project(t, keep))
+		for _, bc := range boolComps {
+			if bc.i >= len(r.vals) {
+				continue
 			}
-			if f := e.refine(r.in, s, r.vals[0], false); f != nil {
-				whenF = append(whenF, e.project(f, keep))
+			if t := e.refine(r.in, s, r.vals[bc.i], true); t != nil {
+				bc.whenT = append(bc.whenT, e.project(t, keep))
+			}
+			if f := e.refine(r.in, s, r.vals[bc.i], false); f != nil {
+				bc.whenF = append(bc.whenF, e.project(f, keep))
 			}
 		}
 		// generalise before the callee-local atoms disappear
@@ -2772,12 +2796,15 @@ func (e *lbEngine) inline(in *lbInst, st *lstate, call *ssa.Call, callee *ssa.Fu
 	}
 	post := joinLin(e.at, all, allZ, nil, resAtoms...)
 	defer func() { e.memo[memoKey] = post }()
-	if boolResult && post != nil {
-		g := e.atom(call)
+	for _, bc := range boolComps {
+		if post == nil {
+			break
+		}
+		g := bc.g
 		for _, side := range []struct {
 			pol bool
 			sts []*lstate
-		}{{true, whenT}, {false, whenF}} {
+		}{{true, bc.whenT}, {false, bc.whenF}} {
 			if len(side.sts) == 0 {
 				continue
 			}
@@ -3037,6 +3064,23 @@ func (e *lbEngine) requireAt(st *lstate, fn *ssa.Function, instr ssa.Instruction
 			fmt.Printf("LB FAIL %s\n   %s\n   state %s\n", key, d, e.at.showState(st))
 		}
 	}
+}
+
+// flagMethods: the cursor-moving methods of the scope that return a bool (by name).
+func (e *lbEngine) flagMethods() map[string]bool {
+	out := map[string]bool{}
+	for _, fn := range e.w.ModFns {
+		if fn.Signature.Recv() == nil || !e.inScope(fn) || !e.movesCursor(fn) {
+			continue
+		}
+		res := fn.Signature.Results()
+		for i := 0; i < res.Len(); i++ {
+			if isBoolType(res.At(i).Type()) {
+				out[fn.Name()] = true
+			}
+		}
+	}
+	return out
 }
 
 // movesCursor: the callee (transitively) stores to Lexer.pos.
@@ -4141,6 +4185,112 @@ func ruleC09R5(w *World, r *Report) {
 	}
 }
 
+// lexProgress: the strict-progress obligations of the loops of the byte-level code (C03/R7), one per loop: every function
+// of the scope on its own, loop-free leaf helpers inlined, other lexer methods summarised as "move the cursor forward";
+// cached.
+func (w *World) lexProgress() []*lbOb {
+	if w.lexProgDone {
+		return w.lexProg
+	}
+	w.lexProgDone = true
+	e2 := w.newLexBounds()
+	e2.progress, e2.shallow, e2.shallowLeaf = true, true, true
+	e2.trace = verboseRule() != "" && verboseRule() != "1" && strings.HasPrefix("C03/R7", verboseRule())
+	for _, fn := range w.ModFns {
+		if fn.Parent() != nil || fn.Synthetic != "" || !e2.inScope(fn) || len(naturalLoops(fn)) == 0 {
+			continue
+		}
+		hasNoPanic := false
+		for _, p := range fn.Params {
+			if p.Name() == "noPanic" && isBoolType(p.Type()) {
+				hasNoPanic = true
+			}
+		}
+		if hasNoPanic {
+			e2.runRoot(fn, map[string]bool{"noPanic": false})
+			e2.runRoot(fn, map[string]bool{"noPanic": true})
+		} else {
+			e2.runRoot(fn, nil)
+		}
+	}
+	runProgress := func(eng *lbEngine, fn *ssa.Function) {
+		hasNoPanic := false
+		for _, p := range fn.Params {
+			if p.Name() == "noPanic" && isBoolType(p.Type()) {
+				hasNoPanic = true
+			}
+		}
+		if hasNoPanic {
+			eng.runRoot(fn, map[string]bool{"noPanic": false})
+			eng.runRoot(fn, map[string]bool{"noPanic": true})
+		} else {
+			eng.runRoot(fn, nil)
+		}
+	}
+	// second chance for a loop whose progress is reported by a callee's boolean result (`skipped, err := l.skipComment()`;
+	// `if !skipped { break }`): the summary "moves the cursor forward" cannot relate the flag to the cursor, so the
+	// function is interpreted again with the cursor-moving methods that return a bool followed instead of summarised
+	var retried map[string]*lbOb
+	for _, ob := range e2.results() {
+		if ob.rule != "C03/R7" || ob.failed == 0 {
+			continue
+		}
+		if retried == nil {
+			retried = map[string]*lbOb{}
+			e3 := w.newLexBounds()
+			e3.progress, e3.shallow, e3.shallowLeaf = true, true, true
+			e3.inlineAlso = e3.flagMethods()
+			for _, fn := range w.ModFns {
+				if fn.Parent() != nil || fn.Synthetic != "" || !e3.inScope(fn) || len(naturalLoops(fn)) == 0 {
+					continue
+				}
+				again := false
+				for _, o := range e2.results() {
+					if o.rule == "C03/R7" && o.failed > 0 && strings.HasPrefix(o.construct, funcName(fn)+": ") {
+						again = true
+					}
+				}
+				if again {
+					runProgress(e3, fn)
+				}
+			}
+			for _, o := range e3.results() {
+				if o.rule == "C03/R7" {
+					retried[o.construct] = o
+				}
+			}
+		}
+	}
+	for _, ob := range e2.results() {
+		if ob.rule != "C03/R7" {
+			continue
+		}
+		if o2 := retried[ob.construct]; ob.failed > 0 && o2 != nil && o2.failed == 0 && o2.total > 0 {
+			o2.note = ", with the flag-returning cursor methods followed"
+			w.lexProg = append(w.lexProg, o2)
+			continue
+		}
+		w.lexProg = append(w.lexProg, ob)
+	}
+	return w.lexProg
+}
+
+// lexLoopProgress: the C03/R7 verdict for the loop of fn whose header is h (found, proved).
+func (w *World) lexLoopProgress(fn *ssa.Function, h *ssa.BasicBlock) (bool, bool) {
+	for i, l := range naturalLoops(fn) {
+		if l.header != h {
+			continue
+		}
+		want := fmt.Sprintf("%s: loop %d — ", funcName(fn), i+1)
+		for _, ob := range w.lexProgress() {
+			if strings.HasPrefix(ob.construct, want) {
+				return true, ob.failed == 0 && ob.total > 0
+			}
+		}
+	}
+	return false, false
+}
+
 func ruleC03R6(w *World, r *Report) {
 	const rule = "C03/R6"
 	r.rule(rule, "byte-level code never indexes outside its operand: in the methods of *Lexer (interpreted from (*Lexer).nextToken for noPanic=false and noPanic=true, callees inlined in context) and in token/quote.go and char/, every index s[i] has 0 <= i < len(s), every slice s[a:b] has 0 <= a <= b <= len(s), every assignment to Lexer.pos keeps 0 <= pos <= len(Buffer), and every error position handed to File.Position is <= len(Buffer) — proved in a relational linear-inequality domain over pos, len(Buffer), loop counters and string lengths; Lexer.pos is written only in lexer.go", 30)
@@ -4203,32 +4353,9 @@ func ruleC03R6(w *World, r *Report) {
 	// C03/R7: strict progress of the loops — a second, cheap run: every function of the scope on its own,
 	// loop-free leaf helpers inlined, other lexer methods summarised as "move the cursor forward"
 	r.rule("C03/R7", "every loop of the byte-level code makes strict progress: on each back edge either Lexer.pos is at least one byte further than at the start of the iteration (so a skipN(n) counts only where n >= 1 is proved; `pos != saved` counts because the cursor only moves forward) or an integer variable of the loop head has grown by at least one, or the loop ranges over a finite value", 6)
-	e2 := w.newLexBounds()
-	e2.progress, e2.shallow, e2.shallowLeaf = true, true, true
-	e2.trace = verboseRule() != "" && verboseRule() != "1" && strings.HasPrefix("C03/R7", verboseRule())
-	for _, fn := range w.ModFns {
-		if fn.Parent() != nil || fn.Synthetic != "" || !e2.inScope(fn) || len(naturalLoops(fn)) == 0 {
-			continue
-		}
-		hasNoPanic := false
-		for _, p := range fn.Params {
-			if p.Name() == "noPanic" && isBoolType(p.Type()) {
-				hasNoPanic = true
-			}
-		}
-		if hasNoPanic {
-			e2.runRoot(fn, map[string]bool{"noPanic": false})
-			e2.runRoot(fn, map[string]bool{"noPanic": true})
-		} else {
-			e2.runRoot(fn, nil)
-		}
-	}
-	for _, ob := range e2.results() {
-		if ob.rule != "C03/R7" {
-			continue
-		}
+	for _, ob := range w.lexProgress() {
 		if ob.failed == 0 {
-			r.ok("C03/R7", ob.construct, ob.where, fmt.Sprintf("proved on %d back edge evaluation(s)", ob.total))
+			r.ok("C03/R7", ob.construct, ob.where, fmt.Sprintf("proved on %d back edge evaluation(s)%s", ob.total, ob.note))
 		} else {
 			var ds []string
 			for d := range ob.details {
@@ -4424,8 +4551,30 @@ func ruleC13R4(w *World, r *Report) {
 	e.trace = verboseRule() != "" && verboseRule() != "1" && strings.HasPrefix(rule, verboseRule())
 	e.runRoot(root, map[string]bool{"noPanic": false})
 	e.runRoot(root, map[string]bool{"noPanic": true})
+	// second chance (see C03/R7): where a callee tells through a boolean result whether it moved the cursor, the summary
+	// "moves the cursor forward" is too weak; interpret again with those methods followed
+	var retried map[string]*lbOb
+	for _, ob := range e.results() {
+		if ob.rule == rule && ob.failed > 0 && retried == nil {
+			retried = map[string]*lbOb{}
+			e3 := w.newLexBounds()
+			e3.tiling, e3.shallow = true, true
+			e3.inlineAlso = e3.flagMethods()
+			e3.runRoot(root, map[string]bool{"noPanic": false})
+			e3.runRoot(root, map[string]bool{"noPanic": true})
+			for _, o := range e3.results() {
+				if o.rule == rule {
+					retried[o.construct] = o
+				}
+			}
+		}
+	}
 	for _, ob := range e.results() {
 		if ob.rule != rule {
+			continue
+		}
+		if o2 := retried[ob.construct]; ob.failed > 0 && o2 != nil && o2.failed == 0 && o2.total > 0 {
+			r.ok(rule, ob.construct, ob.where, fmt.Sprintf("proved in %d context(s), with the flag-returning cursor methods followed", o2.total))
 			continue
 		}
 		if ob.failed == 0 {
